@@ -1,4 +1,88 @@
-(** Wire entry points of property C09 (stub: replaced when the model is built). *)
-From Coq Require Import ZArith List.
-From PLV Require Import Base.Wire.
-Definition entry (sub : Z) (inp : list Z) : list Z := bad_input.
+(** Wire entry of property C09: a HISTORY of parse jobs run in one process.
+
+    sub 0:  objects  : list (arg_spec, allow_pre_space, return_full_node_list)   explicit parser objects
+            contexts : list sctx          (arguments as spellings; jobs refer to them by index)
+            jobs     : list (context index, string, tolerant)
+    The state (cache of standard argument parsers + lazy inner parsers) starts
+    empty and is threaded through the jobs in order; the output is one result
+    dump per job ([ParseWire.show_res], ValueError shown as the real harness
+    shows it), joined by " | ". *)
+From Coq Require Import NArith ZArith List Bool.
+From PLV Require Import Base.PyStr Base.Wire Tok.TokWire Parse.Nodes Parse.Parser Parse.ParseWire Parse.Stateful.
+Import ListNotations.
+
+Definition rd_instance : rd instance :=
+  bind rd_str (fun a => bind rd_bool (fun aps => bind rd_bool (fun full =>
+  ret {| i_spec := a; i_aps := aps; i_full := full; i_inner := None |}))).
+
+Definition rd_key : rd key :=
+  bind rd_str (fun a => bind (rd_opt rd_bool) (fun aps => bind (rd_opt rd_bool) (fun full =>
+  ret {| k_spec := a; k_aps := aps; k_full := full |}))).
+
+Definition rd_spelling : rd spelling :=
+  fun l => match l with
+  | 0%Z :: r => bind rd_key (fun k => ret (SpKey k)) r
+  | 1%Z :: r => bind rd_nat (fun n => ret (SpObj n)) r
+  | _ => None end.
+
+Definition rd_sarg : rd sarg :=
+  bind rd_spelling (fun sp => bind rd_adelta (fun d => ret {| sa_sp := sp; sa_delta := d |})).
+
+Definition rd_sargsparser : rd sargsparser :=
+  fun l => match l with
+  | 0%Z :: r => bind (rd_list rd_sarg) (fun a => ret (SAStd a)) r
+  | 1%Z :: r => Some (SALegacy LVerbMacro, r)
+  | 2%Z :: r => bind rd_str (fun n => bind rd_bool (fun o => ret (SALegacy (LVerbEnv n o)))) r
+  | _ => None end.
+
+Definition rd_scspec : rd scspec :=
+  bind rd_sargsparser (fun a => bind rd_bool (fun m => ret {| ss_args := a; ss_body_math := m |})).
+
+Definition rd_snamed : rd (str * scspec) :=
+  bind rd_str (fun n => bind rd_scspec (fun c => ret (n, c))).
+
+Definition rd_sctx : rd sctx :=
+  bind (rd_list rd_snamed) (fun ms => bind (rd_list rd_snamed) (fun es => bind (rd_list rd_snamed) (fun ss =>
+  bind (rd_opt rd_scspec) (fun um => bind (rd_opt rd_scspec) (fun ue =>
+  ret {| sx_macros := ms; sx_envs := es; sx_specials := ss; sx_unk_macro := um; sx_unk_env := ue |}))))).
+
+Definition rd_rawjob : rd (nat * str * bool) :=
+  bind rd_nat (fun c => bind rd_str (fun s => bind rd_bool (fun tol => ret (c, s, tol)))).
+
+Fixpoint link_jobs (ctxs : list sctx) (raw : list (nat * str * bool)) : option (list job) :=
+  match raw with
+  | [] => Some []
+  | (c, s, tol) :: r =>
+      match nth_error ctxs c, link_jobs ctxs r with
+      | Some x, Some js => Some ({| j_ctx := x; j_s := s; j_tol := tol |} :: js)
+      | _, _ => None
+      end
+  end.
+
+(** "exn ?ValueError": what harness/parseharness.py prints for an exception class outside its table *)
+Definition show_res9 (x : res out) : str :=
+  match x with
+  | RExn 22 => [101;120;110;32;63;86;97;108;117;101;69;114;114;111;114]%N
+  | y => show_res y
+  end.
+
+Fixpoint join_results (l : list str) : str :=
+  match l with
+  | [] => []
+  | [a] => a
+  | a :: r => a ++ [32;124;32]%N ++ join_results r
+  end.
+
+Definition history_entry (inp : list Z) : list Z :=
+  match bind (rd_list rd_instance) (fun objs => bind (rd_list rd_sctx) (fun ctxs =>
+        bind (rd_list rd_rawjob) (fun raw => ret (objs, ctxs, raw)))) inp with
+  | Some ((objs, ctxs, raw), _) =>
+      match link_jobs ctxs raw with
+      | Some jobs => to_wire (join_results (map (fun x => show_res9 (snd x)) (run_history (g_init objs) jobs)))
+      | None => bad_input
+      end
+  | None => bad_input
+  end.
+
+Definition entry (sub : Z) (inp : list Z) : list Z :=
+  if Z.eqb sub 0 then history_entry inp else bad_input.
